@@ -2,7 +2,21 @@
 
     Only statements, each closed by [exact] of a lemma of [Service/Proofs*.v], with
     [Print Assumptions] beneath. *)
-From Irismod Require Import Service.Model Service.Proofs.
+From Irismod Require Import Service.Model Service.Proofs Service.ProofsHist.
+
+(** Over EVERY history (any list of steps: messages of any kind and content, block ends,
+    rate changes, transfers, module calls) from any initial height, time and ledger: the
+    outcome log ([g_out]: one entry (request id, answered | expired) appended by every
+    successful response and by every expiry) never holds two entries for one request id; and
+    a request that has an outcome is never active again (so it can be neither answered nor
+    expired a second time). *)
+Theorem request_single_outcome :
+  forall c steps h0 t0 l0,
+    let s := run c (init h0 t0 l0) steps in
+    NoDup (map fst (g_out s))
+    /\ (forall rid q, In rid (map fst (g_out s)) -> get rid (reqs s) = Some q -> q_active q = false).
+Proof. exact single_outcome_lemma. Qed.
+Print Assumptions request_single_outcome.
 
 (** A response succeeds only for a stored, still active request and only from the provider it
     is addressed to; afterwards the request is inactive and carries the response. *)
@@ -11,10 +25,7 @@ Theorem answer_only_by_addressee_while_active :
     respond c s rid prov kind = Okk s' ->
     exists q, get rid (reqs s) = Some q /\ q_prov q = prov /\ q_active q = true
       /\ exists q', get rid (reqs s') = Some q' /\ q_active q' = false /\ q_resp q' <> 0.
-Proof.
-  intros c s rid prov kind s' H. destruct (respond_ok_lemma _ _ _ _ _ _ H) as (q & A & B & C & (q' & D & E & F & _) & _).
-  exists q. repeat split; try assumption. exists q'. repeat split; assumption.
-Qed.
+Proof. exact answer_only_by_addressee_lemma. Qed.
 Print Assumptions answer_only_by_addressee_while_active.
 
 (** Answers from anyone else, duplicate answers and answers after expiry (the request is no
